@@ -293,6 +293,16 @@ def run_table(t, rec: Rec):
     ctx_desc = (f'J={J} ids={all_ids} partition={part1} sizes={k1}'
                 + (f' mev_partition={part2} mev_sizes={k2}' if part2 is not None else '') + f' spec={spec} mv={mv}')
 
+    def report_seam(seam_):
+        for p in seam_.problems:
+            w = p['phase'] + ('|stratum-of-chosen' if p.get('chosen_inside') else '')
+            row = p['row']
+            viol(p['clause'], w,
+                 f"sampler request for individual #{row} ({p['phase']} sample) deviates from the protocol: {p['clause']} "
+                 f"expected {p['expected']} got {p['observed']}; {ctx_desc}"
+                 + (f" chosen={rows[row]['c']}" if row is not None else ''),
+                 expected=p['expected'], observed=p['observed'], row=row)
+
     # ---- the script of sampler requests prescribed by the protocol
     script = []
     for ri, r in enumerate(rows):
@@ -356,6 +366,7 @@ def run_table(t, rec: Rec):
         uninstall()
         for ri in range(len(rows)):
             rec.case(None, (table_key(t), ri, 'raised', type(e).__name__), outcome=('raised', type(e).__name__, stage))
+        report_seam(seam)
         viol(f'valid-configuration-raises-{type(e).__name__}', f'in-{stage}',
              f'{stage} raised {type(e).__name__}: {e} for the valid configuration {ctx_desc}', observed=repr(e))
         _cleanup()
@@ -381,14 +392,7 @@ def run_table(t, rec: Rec):
                  expected=cols, observed=list(recycled.columns))
 
     # ---- sampler requests
-    for p in seam.problems:
-        w = p['phase'] + ('|stratum-of-chosen' if p.get('chosen_inside') else '')
-        row = p['row']
-        viol(p['clause'], w,
-             f"sampler request #{row} ({p['phase']} sample) deviates from the protocol: {p['clause']} "
-             f"expected {p['expected']} got {p['observed']}; {ctx_desc}"
-             + (f" chosen={rows[row]['c']}" if row is not None else ''),
-             expected=p['expected'], observed=p['observed'], row=row)
+    report_seam(seam)
     if seam.pos != len(script):
         viol('sampler-not-asked-as-the-protocol-prescribes', 'count',
              f'the library called DataFrame.sample {seam.pos} times, the protocol needs {len(script)}; {ctx_desc}',
@@ -640,14 +644,14 @@ def _likelihood(t, rec, viol, ctx, database, kind, struct, rows, inds, by_id, al
             rec.count('full_sample_equivalences')
         trivial_point = 'all-zero-point' if all(p[n] == 0.0 for n in R.SPECS[spec]['params']) else 'point'
         if not okf:
-            viol(f'full-sample-likelihood-differs-from-full-model:{kind}', f'{struct if kind == "nested" else "-"}',
-                 f'every stratum sampled completely, yet the {kind} log likelihood of the generated table is {val!r} and '
+            viol(f'full-sample-likelihood-differs-from-full-model:{kind}', '-',
+                 f'every stratum sampled completely, yet the {kind} ({struct}) log likelihood of the generated table is {val!r} and '
                  f'the {kind} model on the full choice set gives {totf!r} at {p}; rows={[(r["c"], r["a1"], r.get("a2")) for r in rows]}; '
                  f'{ctx_desc}', expected=totf, observed=val)
         elif not ok:
             viol(f'sampled-likelihood-differs-from-corrected-model:{kind}',
-                 f'{struct if kind == "nested" else "-"}|{"mev" if part2 is not None else "first-only"}',
-                 f'the {kind} log likelihood of the generated table is {val!r}; the model with utilities corrected by '
+                 'mev' if part2 is not None else 'first-only',
+                 f'the {kind} ({struct}) log likelihood of the generated table is {val!r}; the model with utilities corrected by '
                  f'-ln(k/n) (and MEV weights n/k) on the same sample gives {tot!r} at {p} ({trivial_point}); '
                  f'rows={[(r["c"], r["a1"], r.get("a2")) for r in rows]}; {ctx_desc}', expected=tot, observed=val)
 
